@@ -12,7 +12,10 @@ LEVEL_TEXT = ("Generated DCOPs with up to 8 variables (names with adversarial le
               "unary/binary/n-ary constraints, isolated variables, duplicate scopes. For each of the three graph "
               "builders the oracle recomputes from the description which nodes, node types, per-node constraints, "
               "neighbour sets and (for the ordered graph) next/previous links must exist and compares exactly; "
-              "symmetry and bipartiteness follow from the exact comparison. Sampling of DCOP shapes.")
+              "symmetry and bipartiteness follow from the exact comparison. In 3 cases out of 8 the same DCOP object is then "
+              "edited 1-3 times (constraint re-defined under its name with another scope, added, removed, removed and "
+              "re-inserted) and after each edit the three graphs are built again and compared with the edited "
+              "description. Sampling of DCOP shapes and edit histories.")
 LEVEL_NOTE = "Trusted: the reference adjacency computed in vf/oracles.py (a dozen lines)."
 RULE = ("case = DCOP description; non-trivial = >=3 variables, a constraint of arity>=3 or two constraints with the "
         "same scope, and >=1 isolated or unary-only variable or >=5 variables; distinct by sha1(case)")
@@ -21,13 +24,91 @@ BUDGET = {"quick": {"workers": 4, "examples": 600, "seconds": 40},
           "thorough": {"workers": 16, "examples": 5000, "seconds": 400}}
 
 
+@st.composite
+def cases(draw):
+    desc = draw(gen.dcops(min_vars=1, max_vars=8, min_dom=1, max_dom=2, max_constraints=9, arities=(1, 2, 2, 3, 4),
+                          var_costs=False, costs=gen.small_int_costs))
+    case = {"dcop": desc}
+    names = [v["name"] for v in desc["variables"]]
+    doms = {v["name"]: desc["domains"][v["domain"]] for v in desc["variables"]}
+    edits = []
+    # a DCOP object is a mutable model (add_constraint replaces a constraint of the same name, dcop.constraints is
+    # the live dict): one case in three edits the same object after its graphs were built and builds them again
+    for _ in range(draw(st.sampled_from([0, 0, 0, 0, 1, 1, 2, 3]))):
+        kind = draw(st.sampled_from(["redefine", "redefine", "add", "remove", "reinsert"]))
+        a = draw(st.integers(1, min(4, len(names))))
+        scope = draw(st.lists(st.sampled_from(names), min_size=a, max_size=a, unique=True))
+        table = gen.nested_table(draw, [len(doms[s]) for s in scope], gen.small_int_costs)
+        edits.append({"kind": kind, "index": draw(st.integers(0, 8)), "scope": scope, "table": table})
+    if edits:
+        case["edits"] = edits
+    return case
+
+
 def case_strategy(tier):
-    return gen.dcops(min_vars=1, max_vars=8, min_dom=1, max_dom=2, max_constraints=9, arities=(1, 2, 2, 3, 4),
-                     var_costs=False, costs=gen.small_int_costs).map(lambda d: {"dcop": d})
+    return cases()
+
+
+def apply_edit(desc, e):
+    """-> (new description, action) ; action = ("set", constraint desc) | ("del", name) | ("reinsert", constraint desc)."""
+    cons = [dict(c) for c in desc["constraints"]]
+    new = dict(desc, constraints=cons)
+    kind = e["kind"]
+    if kind in ("redefine", "remove", "reinsert") and not cons:
+        kind = "add"
+    if kind == "add":
+        name = "k%d" % len(cons)
+        while any(c["name"] == name for c in cons):
+            name += "_"
+        c = {"name": name, "scope": e["scope"], "kind": "matrix", "table": e["table"]}
+        cons.append(c)
+        return new, ("set", c)
+    i = e["index"] % len(cons)
+    if kind == "remove":
+        c = cons.pop(i)
+        return new, ("del", c["name"])
+    c = {"name": cons[i]["name"], "scope": e["scope"], "kind": "matrix", "table": e["table"]}
+    if kind == "redefine":
+        cons[i] = c  # a dict keeps the position of a replaced key
+        return new, ("set", c)
+    cons.pop(i)
+    cons.append(c)
+    return new, ("reinsert", c)
 
 
 def run_case(case):
     desc = case["dcop"]
+    labels = []
+    nontrivial = False
+    try:
+        with under_test():
+            dcop, variables, _ = build.build_dcop(desc)
+        out = check_graphs(dcop, desc, "")
+        nontrivial = out.nontrivial
+        labels = list(out.labels)
+        if not out.ok:
+            return out
+        for k, e in enumerate(case.get("edits", [])):
+            desc, action = apply_edit(desc, e)
+            with under_test():
+                if action[0] == "del":
+                    del dcop.constraints[action[1]]
+                else:
+                    if action[0] == "reinsert":
+                        del dcop.constraints[action[1]["name"]]
+                    dcop.add_constraint(build.build_constraint(desc, action[1], variables))
+            labels.append("edit:" + e["kind"])
+            out = check_graphs(dcop, desc, "after edit %d (%s %s): " % (k + 1, action[0],
+                                                                        action[1] if action[0] == "del" else
+                                                                        "%s on %r" % (action[1]["name"], action[1]["scope"])))
+            if not out.ok:
+                return Outcome(False, out.why, nontrivial, labels, info={"edited": True})
+    except UnderTestError as e:
+        return Outcome(False, "raised %s at %s" % (e, e.frame), nontrivial, labels, info={"exc": e.exc_type})
+    return Outcome(True, "", nontrivial, labels)
+
+
+def check_graphs(dcop, desc, where):
     names = [v["name"] for v in desc["variables"]]
     cons_of = {n: [c["name"] for c in desc["constraints"] if n in c["scope"]] for n in names}
     nb = oracles.neighbours(desc)
@@ -44,61 +125,60 @@ def run_case(case):
     try:
         with under_test():
             from pydcop.computations_graph import constraints_hypergraph, factor_graph, ordered_graph
-            dcop, _, _ = build.build_dcop(desc)
             hg = constraints_hypergraph.build_computation_graph(dcop)
         # ---- constraints hyper-graph
         hn = {n.name: n for n in hg.nodes}
         if sorted(hn) != sorted(names) or len(hg.nodes) != len(names):
-            return Outcome(False, "hypergraph nodes %r != variables %r" % (sorted(n.name for n in hg.nodes), sorted(names)),
+            return Outcome(False, where + "hypergraph nodes %r != variables %r" % (sorted(n.name for n in hg.nodes), sorted(names)),
                            nontrivial, labels)
         for n in names:
             node = hn[n]
             got = sorted(c.name for c in node.constraints)
             if got != sorted(cons_of[n]) or node.variable.name != n:
-                return Outcome(False, "hypergraph node %s lists constraints %r, expected %r" % (n, got, sorted(cons_of[n])),
+                return Outcome(False, where + "hypergraph node %s lists constraints %r, expected %r" % (n, got, sorted(cons_of[n])),
                                nontrivial, labels)
             gnb = list(node.neighbors)
             if sorted(gnb) != sorted(nb[n]):
-                return Outcome(False, "hypergraph node %s neighbours %r, expected %r" % (n, sorted(gnb), sorted(nb[n])),
+                return Outcome(False, where + "hypergraph node %s neighbours %r, expected %r" % (n, sorted(gnb), sorted(nb[n])),
                                nontrivial, labels)
             if sorted(hg.neighbors(n)) != sorted(nb[n]):
-                return Outcome(False, "hypergraph.neighbors(%s) = %r, expected %r" % (n, sorted(hg.neighbors(n)), sorted(nb[n])),
+                return Outcome(False, where + "hypergraph.neighbors(%s) = %r, expected %r" % (n, sorted(hg.neighbors(n)), sorted(nb[n])),
                                nontrivial, labels)
             lk = sorted((getattr(l, "name", None), tuple(sorted(l.nodes))) for l in node.links)
             exp = sorted((c["name"], tuple(sorted(c["scope"]))) for c in desc["constraints"] if n in c["scope"])
             if lk != exp:
-                return Outcome(False, "hypergraph node %s links %r, expected %r" % (n, lk, exp), nontrivial, labels)
+                return Outcome(False, where + "hypergraph node %s links %r, expected %r" % (n, lk, exp), nontrivial, labels)
         # ---- factor graph
         with under_test():
             fg = factor_graph.build_computation_graph(dcop)
         fn = {}
         for node in fg.nodes:
             if node.name in fn:
-                return Outcome(False, "factor graph has two nodes named %s" % node.name, nontrivial, labels)
+                return Outcome(False, where + "factor graph has two nodes named %s" % node.name, nontrivial, labels)
             fn[node.name] = node
         cnames = [c["name"] for c in desc["constraints"]]
         if sorted(fn) != sorted(names + cnames):
-            return Outcome(False, "factor graph nodes %r != variables+constraints %r" % (sorted(fn), sorted(names + cnames)),
+            return Outcome(False, where + "factor graph nodes %r != variables+constraints %r" % (sorted(fn), sorted(names + cnames)),
                            nontrivial, labels)
         for n in names:
             node = fn[n]
             if node.type != "VariableComputation" or sorted(node.neighbors) != sorted(cons_of[n]):
-                return Outcome(False, "factor graph variable node %s: type %s neighbours %r, expected factors %r" % (
+                return Outcome(False, where + "factor graph variable node %s: type %s neighbours %r, expected factors %r" % (
                     n, node.type, sorted(node.neighbors), sorted(cons_of[n])), nontrivial, labels)
         for c in desc["constraints"]:
             node = fn[c["name"]]
             if node.type != "FactorComputation" or sorted(node.neighbors) != sorted(c["scope"]):
-                return Outcome(False, "factor graph factor node %s: type %s neighbours %r, expected scope %r" % (
+                return Outcome(False, where + "factor graph factor node %s: type %s neighbours %r, expected scope %r" % (
                     c["name"], node.type, sorted(node.neighbors), sorted(c["scope"])), nontrivial, labels)
             if sorted(v.name for v in node.variables) != sorted(c["scope"]) or node.factor.name != c["name"]:
-                return Outcome(False, "factor node %s carries factor %s over %r" % (
+                return Outcome(False, where + "factor node %s carries factor %s over %r" % (
                     c["name"], node.factor.name, [v.name for v in node.variables]), nontrivial, labels)
         # ---- ordered graph
         with under_test():
             og = ordered_graph.build_computation_graph(dcop)
         on = {n.name: n for n in og.nodes}
         if sorted(on) != sorted(names) or len(og.nodes) != len(names):
-            return Outcome(False, "ordered graph nodes %r != variables %r" % (sorted(n.name for n in og.nodes), sorted(names)),
+            return Outcome(False, where + "ordered graph nodes %r != variables %r" % (sorted(n.name for n in og.nodes), sorted(names)),
                            nontrivial, labels)
         order = sorted(names)
         for i, n in enumerate(order):
@@ -108,17 +188,17 @@ def run_case(case):
             en = order[i + 1] if i + 1 < len(order) else None
             ep = order[i - 1] if i > 0 else None
             if nxt != en or prv != ep:
-                return Outcome(False, "ordered graph: %s has next=%r previous=%r, expected next=%r previous=%r (order %r)"
+                return Outcome(False, where + "ordered graph: %s has next=%r previous=%r, expected next=%r previous=%r (order %r)"
                                % (n, nxt, prv, en, ep, order), nontrivial, labels)
             nl = [l for l in node.links if l.type == "next"]
             pl = [l for l in node.links if l.type == "previous"]
             if len(nl) != (1 if en else 0) or len(pl) != (1 if ep else 0):
-                return Outcome(False, "ordered graph: %s has %d next and %d previous links" % (n, len(nl), len(pl)),
+                return Outcome(False, where + "ordered graph: %s has %d next and %d previous links" % (n, len(nl), len(pl)),
                                nontrivial, labels)
             got = sorted(c.name for c in node.constraints)
             if got != sorted(cons_of[n]):
-                return Outcome(False, "ordered graph node %s lists constraints %r, expected %r" % (n, got, sorted(cons_of[n])),
+                return Outcome(False, where + "ordered graph node %s lists constraints %r, expected %r" % (n, got, sorted(cons_of[n])),
                                nontrivial, labels)
     except UnderTestError as e:
-        return Outcome(False, "raised %s at %s" % (e, e.frame), nontrivial, labels, info={"exc": e.exc_type})
+        return Outcome(False, where + "raised %s at %s" % (e, e.frame), nontrivial, labels, info={"exc": e.exc_type})
     return Outcome(True, "", nontrivial, labels)
